@@ -37,6 +37,11 @@ thread_local! {
 fn alt() -> bool {
     ALT.with(|a| a.get())
 }
+thread_local! {
+    /// ADEF key `item_order`: `rev` writes the `const`/`type` items of every DSL object body (and of the
+    /// global config) in the reverse of the renderer's usual order; the grammar accepts them in any order.
+    static ITEMS_REV: std::cell::Cell<bool> = std::cell::Cell::new(false);
+}
 /// `RW` → `ReadWrite` etc. under the alternate spelling (both front ends accept both).
 fn access_text(a: &str) -> String {
     if !alt() {
@@ -62,6 +67,14 @@ fn m_access(v: &Value) -> M {
 /// reader converts), JSON has decimal numbers only. Negative numbers stay decimal.
 fn styled(dec: String) -> String {
     let (syntax, style) = STYLE.with(|s| s.borrow().clone());
+    // YAML integers are i64: 2^63..2^64-1 can only be written as the `0b…` string its reader converts
+    if syntax == "yaml" {
+        if let Ok(v) = dec.parse::<u128>() {
+            if v >= (1u128 << 63) && v < (1u128 << 64) {
+                return format!("0b{v:b}");
+            }
+        }
+    }
     if style.is_empty() || style == "dec" || syntax == "json" {
         return dec;
     }
@@ -82,6 +95,7 @@ pub fn render(adef: &Value, syntax: &str) -> Result<String, String> {
     let style = adef.get("num_style").and_then(Value::as_str).unwrap_or("dec").to_string();
     STYLE.with(|s| *s.borrow_mut() = (syntax.to_string(), style));
     ALT.with(|a| a.set(adef.get("spell").and_then(Value::as_str) == Some("alt")));
+    ITEMS_REV.with(|a| a.set(adef.get("item_order").and_then(Value::as_str) == Some("rev")));
     match syntax {
         "dsl" => render_dsl(adef),
         "json" => Ok(emit_json(&manifest_tree(adef, false)?)),
@@ -810,6 +824,10 @@ fn dsl_braced(head: &str, items: &[String], tail: &[String], ind: usize) -> Stri
         return format!("{head} {{ }}");
     }
     let mut out = format!("{head} {{\n");
+    let mut items: Vec<&String> = items.iter().collect();
+    if ITEMS_REV.with(|a| a.get()) {
+        items.reverse();
+    }
     for i in items {
         out.push_str(&format!("{}{}\n", ipad(ind + 1), i));
     }
